@@ -452,8 +452,8 @@ const basePrelude = `; ---- govc base prelude ----
 (define-fun nilS () Slice (mkS 0 0 0 0))
 (declare-const emptyStrBase Int)
 (define-fun emptyStr () Slice (mkS 0 0 0 0))
-(define-fun wfSlice ((s Slice)) Bool (and (<= 0 (s_base s)) (<= 0 (s_off s)) (<= 0 (s_len s)) (<= (s_len s) (s_cap s)) (<= (s_cap s) 4611686018427387904) (<= (s_off s) 4611686018427387904) (=> (= (s_base s) 0) (and (= (s_len s) 0) (= (s_cap s) 0) (= (s_off s) 0)))))
-(define-fun wfStr ((s Slice)) Bool (and (<= 0 (s_base s)) (<= 0 (s_off s)) (<= 0 (s_len s)) (= (s_cap s) (s_len s)) (<= (s_len s) 4611686018427387904) (<= (s_off s) 4611686018427387904) (=> (= (s_base s) 0) (and (= (s_len s) 0) (= (s_off s) 0)))))
+(define-fun wfSlice ((s Slice)) Bool (and (<= 0 (s_base s)) (<= 0 (s_off s)) (<= 0 (s_len s)) (<= (s_len s) (s_cap s)) (<= (s_cap s) 140737488355328) (<= (s_off s) 140737488355328) (=> (= (s_base s) 0) (and (= (s_len s) 0) (= (s_cap s) 0) (= (s_off s) 0)))))
+(define-fun wfStr ((s Slice)) Bool (and (<= 0 (s_base s)) (<= 0 (s_off s)) (<= 0 (s_len s)) (= (s_cap s) (s_len s)) (<= (s_len s) 140737488355328) (<= (s_off s) 140737488355328) (=> (= (s_base s) 0) (and (= (s_len s) 0) (= (s_off s) 0)))))
 (define-fun isnil ((s Slice)) Bool (= (s_base s) 0))
 ; abstract content order of a byte slice: a function of the backing row, offset and length
 (declare-fun ordRow ((Array Int Int) Int Int) Real)
